@@ -36,6 +36,7 @@ MonInit == [bad |-> <<>>, wit |-> {},
             ctl  |-> [d \in Dirs |-> <<>>],   \* <<op, c>> control frames not relayed yet
             cin  |-> [d \in Dirs |-> <<>>],   \* <<code, reason>> close frames the peer sent
             eof  |-> {},
+            mi   |-> {},                      \* directions in which an addon injected between a peer's fragments
             zc   |-> {},                      \* directions in which a ping/pong was sent between compressed fragments
             closed |-> FALSE]
 
@@ -81,7 +82,9 @@ DeliverClause(m, ev) ==
        ELSE IF r.typ # ev.typ THEN <<"C28.type_changed", r.typ, r.act>>
        ELSE IF r.c # ev.c THEN <<"C28.content_changed", r.typ, r.act, Mb(r.mb)>>
        ELSE IF r.act = "keep" /\ ~r.inj /\ r.frags # ev.frags
-            THEN <<"C28.frame_boundaries_changed", r.typ, IF r.split THEN "split_char" ELSE "whole_chars">>
+            THEN <<"C28.frame_boundaries_changed", r.typ,
+                   IF r.split THEN "split_char"
+                   ELSE IF r.d \in m.mi THEN "after_injection_between_fragments" ELSE "whole_chars">>
        ELSE <<>>
 
 CtlClause(m, ev) ==
@@ -124,6 +127,7 @@ MonStep(m, ev) ==
                               \cup (IF \E i \in 1..Len(ev.frags) : ev.frags[i] = 0 THEN {"empty_fragment"} ELSE {})]
     [] ev.k = "inject" ->
          [m1 EXCEPT !.inj[ev.d] = Append(@, [typ |-> ev.typ, c |-> ev.c, mid |-> ev.mid, mb |-> ev.mb]),
+                    !.mi = IF ev.mid THEN @ \cup {ev.d} ELSE @,
                     !.wit = @ \cup {"inject"} \cup (IF ev.mid THEN {"inject_mid_message"} ELSE {})]
     [] ev.k = "hook" ->
          [m1 EXCEPT !.rec = Append(@, RecOf(ev, IF ~ev.inj /\ m.sent[ev.d] # <<>> THEN Head(m.sent[ev.d]) ELSE NoSrc)),
